@@ -78,12 +78,15 @@ func getFirstUnFullRGLocWithDiffAz(data *Data, db string, currentAz string) int 
 func getAzSet(data *Data, db string, rgGroup ReplicaGroup) map[string]struct{} {
 	azSet := make(map[string]struct{})
 	ptId := rgGroup.MasterPtID
-	node := getDataNodeByPtId(data, db, ptId)
-	azSet[node.Az] = struct{}{}
+	// the owner of a partition may be gone (RemoveNode drops a node without moving its partitions): it has no az to count
+	if node := getDataNodeByPtId(data, db, ptId); node != nil {
+		azSet[node.Az] = struct{}{}
+	}
 	peers := rgGroup.Peers
 	for _, peer := range peers {
-		peerNode := getDataNodeByPtId(data, db, peer.ID)
-		azSet[peerNode.Az] = struct{}{}
+		if peerNode := getDataNodeByPtId(data, db, peer.ID); peerNode != nil {
+			azSet[peerNode.Az] = struct{}{}
+		}
 	}
 	return azSet
 }
@@ -96,6 +99,9 @@ func inAzSet(data *Data, db string, rgGroup ReplicaGroup, currentAz string) bool
 
 func getDataNodeByPtId(data *Data, db string, ptId uint32) *DataNode {
 	ptInfo := data.GetPtInfo(db, ptId)
+	if ptInfo == nil {
+		return nil
+	}
 	nodeId := ptInfo.Owner.NodeID
 	node := data.DataNode(nodeId)
 	return node
